@@ -14,6 +14,7 @@ import (
 	"net"
 	"runtime/debug"
 	"sync"
+	"sync/atomic"
 	"time"
 
 	"github.com/btcsuite/btcd/btcec/v2"
@@ -88,6 +89,8 @@ type pipe struct {
 	// maxRead bounds what one Read returns (0 = whatever is in the piece).
 	maxRead int
 	reads   int
+	// waiting is set while a reader is blocked on an empty pipe.
+	waiting bool
 }
 
 func newPipe() *pipe {
@@ -129,7 +132,9 @@ func (p *pipe) Read(b []byte) (int, error) {
 		if p.closed {
 			return 0, io.EOF
 		}
+		p.waiting = true
 		p.cond.Wait()
+		p.waiting = false
 	}
 	if len(b) == 0 {
 		return 0, nil
@@ -150,6 +155,12 @@ func (p *pipe) Read(b []byte) (int, error) {
 		p.chunks[0] = c[n:]
 	}
 	return n, nil
+}
+
+func (p *pipe) isWaiting() bool {
+	p.mu.Lock()
+	defer p.mu.Unlock()
+	return p.waiting && len(p.chunks) == 0 && !p.closed
 }
 
 func (p *pipe) Close() {
@@ -236,6 +247,8 @@ type partyResult struct {
 	onAuth    [][]byte // arguments of onAuthData
 	wrote     [][]byte // raw bytes written, per Write
 	completed bool
+	// deadline: still waiting for handshake bytes when the modelled read deadline expired
+	deadline bool
 }
 
 func (p party) pattern() mailbox.HandshakePattern {
@@ -313,18 +326,46 @@ func runHandshake(ini, rsp party, o hsOpts) (ri, rr *partyResult, d *duplex, err
 		res.err = res.machine.DoHandshake(s)
 		res.completed = res.err == nil
 	}
+	var fin [2]atomic.Bool
 	wg.Add(2)
-	go run(ri, d.I)
-	go run(rr, d.R)
+	go func() { run(ri, d.I); fin[0].Store(true) }()
+	go func() { run(rr, d.R); fin[1].Store(true) }()
 	done := make(chan struct{})
 	go func() { wg.Wait(); close(done) }()
-	select {
-	case <-done:
-	case <-time.After(20 * time.Second):
-		d.I.Close()
-		d.R.Close()
-		<-done
-		return ri, rr, d, fmt.Errorf("handshake did not terminate (both sides waiting)")
+	// The connection layers put a read deadline (handshakeReadTimeout) on
+	// the handshake. The in-memory pipes have no clock, so the deadline is
+	// modelled structurally: when every side that has not returned is
+	// blocked reading and nothing is in flight, the deadline expires and
+	// the readers fail.
+	start := time.Now()
+	stuck := 0
+loop:
+	for {
+		select {
+		case <-done:
+			break loop
+		case <-time.After(200 * time.Microsecond):
+		}
+		iWaits, rWaits := d.r2i.isWaiting(), d.i2r.isWaiting()
+		iDone, rDone := fin[0].Load(), fin[1].Load()
+		if (iWaits || iDone) && (rWaits || rDone) && (iWaits || rWaits) {
+			stuck++
+			if stuck >= 3 {
+				ri.deadline, rr.deadline = iWaits, rWaits
+				d.I.Close()
+				d.R.Close()
+				<-done
+				break loop
+			}
+		} else {
+			stuck = 0
+		}
+		if time.Since(start) > 30*time.Second {
+			d.I.Close()
+			d.R.Close()
+			<-done
+			return ri, rr, d, fmt.Errorf("handshake did not terminate")
+		}
 	}
 	ri.wrote, rr.wrote = d.i2r.written, d.r2i.written
 	return ri, rr, d, nil
